@@ -20,19 +20,21 @@ UNK = None
 
 
 class SB:
-    __slots__ = ('nmin', 'rel', 'cst', 'skew')
+    __slots__ = ('nmin', 'rel', 'cst', 'skew', 'low')
 
-    def __init__(self, nmin=0, rel=None, cst=None, skew=0):
-        self.nmin, self.rel, self.cst, self.skew = nmin, dict(rel or {}), dict(cst or {}), skew
+    def __init__(self, nmin=0, rel=None, cst=None, skew=0, low=None):
+        self.nmin, self.rel, self.cst, self.skew, self.low = nmin, dict(rel or {}), dict(cst or {}), skew, dict(low or {})
 
     def key(self):
-        return (self.nmin, tuple(sorted(self.rel.items())), tuple(sorted(self.cst.items())), self.skew)
+        return (self.nmin, tuple(sorted(self.rel.items())), tuple(sorted(self.cst.items())), self.skew, tuple(sorted(self.low.items())))
 
     def copy(self):
-        return SB(self.nmin, self.rel, self.cst, self.skew)
+        return SB(self.nmin, self.rel, self.cst, self.skew, self.low)
 
     def meet(self, o):
         r = SB(min(self.nmin, o.nmin), skew=max(self.skew, o.skew))
+        for k in self.low.keys() & o.low.keys():
+            r.low[k] = min(self.low[k], o.low[k])
         for k in self.rel.keys() & o.rel.keys():
             r.rel[k] = max(self.rel[k], o.rel[k])
         for k in self.cst.keys() & o.cst.keys():
@@ -111,7 +113,7 @@ class BufSize:
         return None
 
     def set_ub(self, st, vid, b):
-        st.rel.pop(vid, None); st.cst.pop(vid, None)
+        st.rel.pop(vid, None); st.cst.pop(vid, None); st.low.pop(vid, None)
         if b is not None:
             (st.rel if b[0] == 'rel' else st.cst)[vid] = b[1]
 
@@ -141,6 +143,9 @@ class BufSize:
                     off = const_of(sa['r']) * (1 if sa['op'] == '+' else -1)
                     if off < 0 and (strip(sa['l']).get('t') or {}).get('u'):
                         vid = None          # v - k on an unsigned v may wrap: no bound
+                # v > K / v >= K with a constant K: a lower bound (`if(v > 512) v = 512;` lowers v, whatever bounded it before still does)
+                if vid is not None and off == 0 and vid != self.n_id and vid not in self.ptr_ids and o in ('>', '>=') and const_of(b) is not None:
+                    st.low[vid] = max(st.low.get(vid, -10 ** 30), const_of(b) + (1 if o == '>' else 0))
                 if vid is not None and vid != self.n_id and vid not in self.ptr_ids and o in ('<', '<='):
                     bb = self.ub(b, st)
                     if bb is not None:
@@ -221,6 +226,7 @@ class BufSize:
                 return st
             if vid is not None:
                 st = st.copy()
+                st.low.pop(vid, None)
                 d = 1 if e['op'] == '++' else -1
                 if vid in st.rel:
                     st.rel[vid] += d
@@ -250,8 +256,12 @@ class BufSize:
             if vid is not None:
                 st = st.copy()
                 if op == '=':
+                    keep = st.rel.get(vid) if (const_of(rhs) is not None and vid in st.low and const_of(rhs) <= st.low[vid]) else None
                     self.set_ub(st, vid, self.ub(rhs, st))
+                    if keep is not None:
+                        st.rel[vid] = keep          # the constant stored is not above the old value
                 elif op in ('+=', '-=') and const_of(rhs) is not None:
+                    st.low.pop(vid, None)
                     d = const_of(rhs) * (1 if op == '+=' else -1)
                     if vid in st.rel:
                         st.rel[vid] += d
